@@ -197,6 +197,53 @@ def rule_ladders(ctx):
                           f"ladders of the MERGE explode step disagree, so rows are changed by the wrong statement or the reported counts are wrong")
 
 
+def rule_quoted_identifiers_kept(ctx):
+    """C12.j: identifiers of the user's MERGE reach the generated statements through their nodes (which render the quotes a
+    name needs), never as bare text: a target column written `"Ship To"` is not emitted as `Ship To`."""
+    prog = ctx.prog
+
+    def ident(n, quoted=False):
+        return NodeV("Identifier", {"this": Const(n), "quoted": Const(quoted)}, name=f"id:{n}", open=False)
+
+    def col(t, c, quoted=False):
+        return node("Column", f"{t}.{c}", this=ident(c, quoted), table=ident(t))
+
+    def merge():
+        on = node("EQ", "on", this=col("TGT", "ID"), expression=col("SRC", "ID"))
+        upd = node("Update", expressions=Lst([node("EQ", this=col("TGT", "Ship To", True), expression=col("SRC", "Sent To", True))]))
+        ins = node("Insert", this=node("Tuple", expressions=Lst([col("TGT", "Ship To", True)])),
+                   expression=node("Tuple", expressions=Lst([col("SRC", "Sent To", True)])))
+        whens = Lst([node("When", "w0", matched=Const(True), then=upd), node("When", "w1", matched=Const(False), then=ins)])
+        return node("Merge", "merge", this=node("Table", "TGT", this=ident("TGT")), using=node("Table", "SRC", this=ident("SRC")),
+                    on=on, expressions=whens)
+
+    m = prog.mod("transforms_merge")
+    n = 0
+    for fname in ("_mutations", "_create_merge_candidates"):
+        if not prog.has_fn("transforms_merge", fname):
+            continue
+        for p in explore(prog, lambda: ExecHooks(None), lambda I, fname=fname: I.call(I.global_lookup("transforms_merge", fname), [merge()], {}, None),
+                         max_paths=32):
+            if p.outcome != "return":
+                continue
+            stmts = p.value.items if isinstance(p.value, Lst) else [p.value]
+            for st in stmts:
+                src = getattr(st, "parsed_from", None)
+                if not isinstance(src, Str):
+                    continue
+                n += 1
+                literal = "".join(x for x in src.parts if isinstance(x, str))
+                bare = [nm for nm in ("Ship To", "Sent To") if re.search(r'(?<!")' + re.escape(nm) + r'(?!")', literal)]
+                ctx.ob("C12.j", f"{fname}: quoted identifiers are rendered through their nodes", not bare, m.path, str(bare))
+                if bare:
+                    ctx.violation("C12.j", "transforms_merge", fname, f"identifier {bare[0]!r} emitted as bare text", m.path,
+                                  f"the statement generated by {fname} contains the column name {bare[0]!r} as bare text (taken from `.name`) instead "
+                                  f"of the rendering of its identifier node: a column that needs its quotes (`\"Ship To\"`, `\"order\"`) is written "
+                                  f"without them and the MERGE fails to parse or names another column")
+            break
+    ctx.floor("C12.j generated statements", n, 3)
+
+
 class MergeHooks(FullHooks):
     def external(self, I, d, args, kwargs, site):
         if d in ("sqlglot.parse_one",) and isinstance(kwargs.get("read"), Const) and kwargs["read"].v == "snowflake":
@@ -284,6 +331,7 @@ def rule_lifetime_and_bracket(ctx):
 from .c19 import rule_temporary_stays_private  # noqa: E402  (the helper is TEMPORARY in the template *and* at the engine)
 
 RULES = [
+    ("C12.j", rule_quoted_identifiers_kept, ("quick", "thorough")),
     ("C12.d2", rule_temporary_stays_private, ("quick", "thorough")),
     ("C12.a", rule_keyword_compare, ("quick", "thorough")),
     ("C12.a2", rule_ident_compare, ("quick", "thorough")),
